@@ -406,6 +406,10 @@ func execWriterCase(c *WCase, arch int, emit func(interface{})) {
 	}
 	emit(WEvent{Ev: "Begin", Case: c.ID, Kind: kind, Impl: c.Set.Impl, Level: c.Set.Level,
 		Window: c.Set.Window, Accel: c.Set.accel(), Period: period, Arch: arch})
+	if c.Bulk > 0 && c.Set.Kind != "flate" {
+		execBulkChecksum(c, emit)
+		return
+	}
 	if c.Bulk > 0 {
 		execBulk(c, emit)
 		return
@@ -603,6 +607,88 @@ func execBulk(c *WCase, emit func(interface{})) {
 				ev.Err = fmt.Sprintf("stream %d (len %d, seed %d): %s", t, n, c.Data.Seed+int64(t)*7919, bad)
 			}
 		}
+	}
+	emit(ev)
+}
+
+// execBulkChecksum: the trailer checksums of the containers at the one place where every
+// implementation of them has its pitfall - Adler-32 defers its modulo for at most 5552 bytes
+// (the largest count for which 32-bit sums of 0xff bytes cannot overflow), CRC-32 works in
+// blocks of 4 to 64 bytes.  Streams of 0xff / 0xfe bytes written with two Write calls whose sizes
+// sweep the neighbourhood of 5552 (second) and the running sums (first), read back with the
+// standard library's reader, which verifies the trailer; one summary event.
+func execBulkChecksum(c *WCase, emit func(interface{})) {
+	ev := WEvent{Ev: "Bulk", Case: c.ID, Err: "nil"}
+	set := c.Set
+	ones := bytes.Repeat([]byte{0xff}, 140000)
+	for i := 1; i < len(ones); i += 97 {
+		if c.Data.Seed%2 == 0 {
+			ones[i] = 0xfe
+		}
+	}
+	var buf bytes.Buffer
+	run := func(sizes ...int) {
+		ev.N++
+		bad := ""
+		func() {
+			defer func() {
+				if x := recover(); x != nil {
+					bad = "panic: " + panicString(x)
+					if ev.Panic == "" {
+						ev.Panic = panicString(x)
+					}
+				}
+			}()
+			buf.Reset()
+			u, err := newWriter(set, &buf, nil)
+			if err != nil {
+				bad = "constructor: " + err.Error()
+				return
+			}
+			total := 0
+			for _, n := range sizes {
+				if _, err := u.w.Write(ones[total : total+n]); err != nil {
+					bad = "Write: " + err.Error()
+					return
+				}
+				total += n
+			}
+			if err := u.w.Close(); err != nil {
+				bad = "Close: " + err.Error()
+				return
+			}
+			var r io.Reader
+			if set.Kind == "gzip" {
+				r, err = stdgzip.NewReader(bytes.NewReader(buf.Bytes()))
+			} else {
+				r, err = stdzlib.NewReader(bytes.NewReader(buf.Bytes()))
+			}
+			if err != nil {
+				bad = "the standard library's reader: " + err.Error()
+				return
+			}
+			got, err := io.ReadAll(r)
+			if err != nil || !bytes.Equal(got, ones[:total]) {
+				bad = fmt.Sprintf("the standard library's reader: %v (%d of %d bytes)", err, len(got), total)
+			}
+		}()
+		if bad != "" {
+			ev.Ret++
+			if ev.Err == "nil" {
+				ev.Err = fmt.Sprintf("writes %v: %s", sizes, bad)
+			}
+		}
+	}
+	for a := 200; a <= 300; a++ {
+		for b := 5545; b <= 5575; b++ {
+			run(a, b)
+		}
+	}
+	for a := 0; a < 6000; a += 61 {
+		run(a, 5552+a%17, 1+a%5)
+	}
+	for _, n := range []int{5551, 5552, 5553, 11104, 11105, 65535, 65536, 133248, 133254, 133260, 133264} {
+		run(n)
 	}
 	emit(ev)
 }
